@@ -9,7 +9,7 @@
 
   * `deliver_results` puts a mapping result into the patch item by item (`dict.update`) and any other result through
     `copy.deepcopy`: a result that is neither None nor a mapping and that `copy.deepcopy` rejects (a lock, a generator,
-    a coroutine, an open file, anything holding one) raises THERE — after the handlers, before the bookkeeping.
+    a coroutine, an open file, anything holding one) raises THERE — after the handlers and after `resumed_handlers`, before `fully_handled_once`.
   * a result JSON cannot write down (a datetime, a set, a Decimal, bytes, a view nested in it, …) raises when the PATCH
     request is made (the HTTP client serialises the payload) — after the bookkeeping; likewise every API error.
 
@@ -40,25 +40,43 @@ def deliveryRaisesJson (rs : List ResultShape) : Bool :=
 def wireRaises (rs : List ResultShape) : Bool :=
   rs.any (fun r => !r.isNone && !r.jsonPatch)
 
-/-- The cycle cut after the handlers were executed and BEFORE the memory bookkeeping: the handlers have run, the memory
-    is the recalled one (only the first-event flag is decided), nothing reaches the object. -/
-def cutBeforeMemory (decls : List Decl) (m : Option Mem) (P : C02.Store) (e : Event) : StepResult :=
+/-- THE CODE AS IT IS (since /repo 4eb6f10, the repair of finding F11): the cycle cut in the delivery of the results —
+    after the handlers were executed AND after `memory.resumed_handlers.update(...)`, but before `fully_handled_once` is
+    written and before anything reaches the object: the resuming handlers that reached a final outcome in this pass are
+    remembered (even if the pass would have closed the cycle: the set is not cleared), nothing else is. -/
+def cutAtDelivery (decls : List Decl) (m : Option Mem) (P : C02.Store) (e : Event) : StepResult :=
+  let mem := recall m e
+  let bound := boundOf decls (causeOf mem e)
+  let newly := (C02.cycleFinalsB (cfgOf decls mem e) bound P e.now e.exec).filter (isInitial decls)
+  { mem := if e.deleted then none else some { mem with resumed := mem.resumed ++ newly }, P := P,
+    invoked := (step decls m P e).invoked, closed := false }
+
+/-- The order BEFORE /repo 4eb6f10 (`deliver_results` came before `memory.resumed_handlers.update`): the cycle cut
+    before ANY memory bookkeeping — the handlers have run, the memory is the recalled one (only the first-event flag is
+    decided), nothing reaches the object. Kept as the subject of the regression theorems of F11. -/
+def cutBeforeMemoryOld (decls : List Decl) (m : Option Mem) (P : C02.Store) (e : Event) : StepResult :=
   { mem := if e.deleted then none else some (recall m e), P := P, invoked := (step decls m P e).invoked, closed := false }
 
-/-- One `process_resource_event`, given how the delivery of results fails (`raises`: `deliveryRaises` for the code as it
-    is) and whether the patch is lost on its way (`patchLost`: an API error, a connection error — in addition to the
-    results the wire cannot carry). `rs` = the results returned by the handlers invoked in this pass. -/
-def stepWith (raises : List ResultShape → Bool) (decls : List Decl) (m : Option Mem) (P : C02.Store) (e : Event)
+/-- One `process_resource_event`, given the order of the bookkeeping (`old` = as before 4eb6f10), how the delivery of
+    results fails (`raises`: `deliveryRaises` for the code as it is) and whether the patch is lost on its way (`patchLost`:
+    an API error, a connection error — in addition to the results the wire cannot carry). `rs` = the results returned by
+    the handlers invoked in this pass. -/
+def stepWith (old : Bool) (raises : List ResultShape → Bool) (decls : List Decl) (m : Option Mem) (P : C02.Store) (e : Event)
     (rs : List ResultShape) (patchLost : Bool) : StepResult :=
-  if !e.suppressed && !(step decls m P e).invoked.isEmpty && raises rs then cutBeforeMemory decls m P e
+  if !e.suppressed && !(step decls m P e).invoked.isEmpty && raises rs then
+    (if old then cutBeforeMemoryOld decls m P e else cutAtDelivery decls m P e)
   else if patchLost || wireRaises rs then { step decls m P e with P := P }
   else step decls m P e
 
 /-- the code as it is -/
-def stepR := stepWith deliveryRaises
+def stepR := stepWith false deliveryRaises
 
-/-- the seeded variant C14f -/
-def stepJson := stepWith deliveryRaisesJson
+/-- the code before /repo 4eb6f10 -/
+def stepROld := stepWith true deliveryRaises
+
+/-- the seeded variant C14f, on the tree it was written for (before 4eb6f10) and on the repaired one -/
+def stepJsonOld := stepWith true deliveryRaisesJson
+def stepJson := stepWith false deliveryRaisesJson
 
 /-- One event of a history with results: the event, the results its handlers return, whether its patch is lost. -/
 structure EventR where
@@ -66,14 +84,16 @@ structure EventR where
   rs : List ResultShape
   patchLost : Bool
 
-def runWith (raises : List ResultShape → Bool) (decls : List Decl) :
+def runWith (old : Bool) (raises : List ResultShape → Bool) (decls : List Decl) :
     Option Mem → C02.Store → List EventR → List (List (C02.Id × Nat))
   | _, _, [] => []
   | m, P, x :: rest =>
-      let r := stepWith raises decls m P x.e x.rs x.patchLost
-      r.invoked :: runWith raises decls r.mem r.P rest
+      let r := stepWith old raises decls m P x.e x.rs x.patchLost
+      r.invoked :: runWith old raises decls r.mem r.P rest
 
-def runR := runWith deliveryRaises
-def runJson := runWith deliveryRaisesJson
+def runR := runWith false deliveryRaises
+def runROld := runWith true deliveryRaises
+def runJson := runWith false deliveryRaisesJson
+def runJsonOld := runWith true deliveryRaisesJson
 
 end Kopf.C14
